@@ -18,7 +18,8 @@ ENTRY = re.compile(r'(decode|decompress|deserialize|from_bytes|load_from|^open$|
 
 
 def analyse(ctx, fx, files=FILES, prefix=""):
-    cl = taint.new_closure(fx)
+    # MmapVec's header lives in the mapped file: its fields are untrusted integers wherever they are read
+    cl = taint.new_closure(fx, scalar_fields=[r"MmapVecHeader::(length|capacity|element_size)$"])
     entries = []
     for f in files:
         for fid in fx.fn_ids(f):
@@ -33,6 +34,9 @@ def analyse(ctx, fx, files=FILES, prefix=""):
         ctx.analysed_fns.add(fid)
         nsinks += taint.check_sinks(ctx, fn, ft, prefix)
         nsinks += taint.check_panics(ctx, fn, ft, prefix + "R-PANIC")
+        ctx.instance(prefix + "R-DIV.sites", taint.check_div(ctx, fn, ft, rule=prefix + "R-DIV"))
+        taint.check_arith(ctx, fn, ft, rule=prefix + "R-ARITH.mul", ops=("Mul", "MulWithOverflow", "MulUnchecked"), fx=fx)
+        ctx.instance(prefix + "R-ARITH.mul.guards_examined", len(taint.Guards(fn, ft).items))
     ctx.instance(prefix + "entries", len(entries))
     ctx.instance(prefix + "closure_fns", len(res))
     ctx.instance(prefix + "untrusted_sinks", nsinks)
@@ -41,7 +45,7 @@ def analyse(ctx, fx, files=FILES, prefix=""):
 
 def run(ctx):
     fx = ctx.facts("default")
-    fixtures.run(ctx, ['taint', 'trunc'])
+    fixtures.run(ctx, ['taint', 'trunc', 'arithmul', 'div'])
     cl, entries, res = analyse(ctx, fx)
     nt = 0
     for fid in fx.fn_ids():
@@ -56,6 +60,7 @@ def run(ctx):
     ctx.floor("entries", 150)
     ctx.floor("closure_fns", 180)
     ctx.floor("untrusted_sinks", 35)
+    ctx.floor("R-DIV.sites", 4)
     ctx.extra["entry_points"] = len(entries)
     ctx.extra["entry_sample"] = entries[:25]
     ctx.extra["untrusted_struct_fields"] = {"bytes": sorted(cl.summ.reg_buf)[:40], "integers": sorted(cl.summ.reg_scalar)[:60]}
@@ -63,7 +68,9 @@ def run(ctx):
         level_note="decides five structural clauses of C15 (allocation from unvalidated length, unguarded index/slice, "
                    "unguarded unsafe access, unwrap/panic decided by untrusted data - for the closure of the parser entry "
                    "points - and R-TRUNC: every variable-length integer decoder in the crate reports success only after a byte "
-                   "with a clear continuation bit); guard SHAPE is checked (a dominating comparison of a value covering the untrusted operand "
+                   "with a clear continuation bit; R-DIV: an untrusted divisor is tested against zero on a dominating branch; R-ARITH.mul: "
+                   "no bound check compares a value computed with unchecked multiplication on a full-width untrusted operand, "
+                   "directly or inside a crate-local helper); guard SHAPE is checked (a dominating comparison of a value covering the untrusted operand "
                    "against a trusted bound, refusing on the large side), guard ARITHMETIC is not; loop termination and "
                    "decompression-bomb amplification are not decided; struct fields are abstracted by type.",
         explanation="interprocedural taint analysis over MIR: BUF (untrusted content) and SCALAR (integers read from it, each "
